@@ -15,7 +15,7 @@ from hypothesis import strategies as st
 
 from . import gen, refdata
 from .model import F, exact, fs, mknum
-from .universe import UGen, UModel, bm_mul, merge_items
+from .universe import _uname, UGen, UModel, bm_mul, merge_items
 
 _counter = itertools.count(1)
 
@@ -40,7 +40,7 @@ class HGen(UGen):
 
     def _emit(self, d):
         # symbols with inner blanks / operator characters are legal symbols, too
-        style = self.draw(st.sampled_from([0, 0, 0, 0, 1, 2, 3]))
+        style = self.draw(st.sampled_from([0, 0, 0, 0, 1, 2, 3, 4]))
         if style:
             d = dict(d, symstyle=style)
         return super()._emit(d)
@@ -187,12 +187,14 @@ class World:
         self.syms = []
         self.nsym = itertools.count()
         self.attempted = []       # symbols of rejected attempts
+        self.ns = {}              # one namespace dict shared by all functional type declarations
 
     def newsym(self, style=0):
-        """style 0: plain token; 1: inner blank; 2: non-ASCII / operator characters; 3: several blanks"""
+        """style 0: plain token; 1: inner blank; 2: non-ASCII / operator characters; 3: several blanks;
+        4: characters that Unicode normalisation would change (OHM SIGN, a combining accent)"""
         n = next(self.nsym)
         return {0: f"{self.prefix}u{n}", 1: f"{self.prefix} u{n}", 2: f"{self.prefix}µ·{n}²/x",
-                3: f"{self.prefix} sq  u {n}"}[style or 0]
+                3: f"{self.prefix} sq  u {n}", 4: f"{self.prefix}\u2126a\u0301{n}"}[style or 0]
 
 
 def _defn_obj(w: World, items, how):
@@ -235,7 +237,7 @@ def exec_valid(w: World, d, sym=None):
             has_ref = all(w.m.types[ti].has_ref for ti, _ in d["def"])
             if has_ref and d.get("refsym"):
                 kw.update(ref_unit_symbol=sym or w.newsym(d.get("symstyle")), ref_unit_name=f"ref of {name}")
-        cls = QuantityMeta(name, (Quantity,), {}, **kw)
+        cls = QuantityMeta(name, (Quantity,), w.ns, **kw)
         mt = w.m.add_type(d)
         w.types.append(cls)
         if mt.has_ref:
@@ -246,19 +248,19 @@ def exec_valid(w: World, d, sym=None):
     how = d["how"]
     sym = sym or w.newsym(d.get("symstyle"))
     if how == "bare":
-        u = cls.new_unit(sym, f"unit {sym}")
+        u = cls.new_unit(sym, _uname(sym))
     elif how == "scaled":
         of = w.units[d["of"]]
         f = d["f"]
         fo = getattr(sip, f[1]) if f[0] == "si" else mknum(f)
         qty = fo * of if d["side"] == "l" else of * fo
-        u = cls.new_unit(sym, f"unit {sym}", qty)
+        u = cls.new_unit(sym, _uname(sym), qty)
     elif how == "derive":
         args = [w.units[a] for a in d["args"]]
-        u = cls.derive_unit_from(*args, symbol=sym, name=f"unit {sym}") if d.get("sym") else cls.derive_unit_from(*args)
+        u = cls.derive_unit_from(*args, symbol=sym, name=_uname(sym)) if d.get("sym") else cls.derive_unit_from(*args)
     else:
         items = [((w.units[el] if isinstance(el, int) else mknum(el)), e) for el, e in d["items"]]
-        u = cls.new_unit(sym, f"unit {sym}", Term(items))
+        u = cls.new_unit(sym, _uname(sym), Term(items))
     w.m.add_unit(d)
     w.units.append(u)
     w.syms.append(u.symbol)
